@@ -70,6 +70,12 @@ func NewAuthorizer(cfg Config) *Authorizer {
 		if name == "" {
 			continue
 		}
+		if prev, ok := principals[name]; ok {
+			// Several entries for one principal: keep every rule, so that a deny
+			// rule in an earlier entry is never dropped by a later one.
+			p.Allow = append(append([]Rule(nil), prev.Allow...), p.Allow...)
+			p.Deny = append(append([]Rule(nil), prev.Deny...), p.Deny...)
+		}
 		principals[name] = p
 	}
 	return &Authorizer{
